@@ -12,9 +12,14 @@ from . import tieb_stores
 from .common import Check
 
 RULE = ("(a) deterministic corpus of ill-addressed operations (every write op x {foreign, dead, deleted, live} id x "
-        "{populated, empty, missing} bucket) then seeded random histories of 1-40 ops over 1-3 buckets, half of "
-        "them with the malformed stream on; every history is run on memory, sqlite (temp file) and peewee (temp "
-        "file); non-trivial = a run in which a write op was issued while another bucket held events; (b) histories whose "
+        "{populated, empty, missing} bucket; replace / replace_last / insert / one-element bulk call whose event "
+        "ARGUMENT carries an id other than the addressed one: foreign, dead, deleted, another live one; one Event "
+        "OBJECT handed to calls on two and three different buckets, first call x second call over insert / bulk / "
+        "replace / replace_last, and objects the store handed back passed to a write on another bucket) on both "
+        "layers (storage object; public Datastore / Bucket API), then seeded random histories of 1-40 ops over 1-3 "
+        "buckets, three quarters of them with the malformed stream on, half of them passing Event objects again "
+        "(30 % of the event arguments), alternating between the layers; every history is run on memory, sqlite "
+        "(temp file) and peewee (temp file); non-trivial = a run in which a write op was issued while another bucket held events; (b) histories whose "
         "tail of 2-11 ops (writes to populated buckets interleaved with rejected / raising ops addressed to a missing "
         "bucket or carrying dead ids) is NOT read back op by op - reads commit on sqlite - with one dump at the end, "
         "SqliteStorage in its default lazy-commit mode")
@@ -25,16 +30,27 @@ def main(argv=None):
     common.setup_impl_env()
     ck.run_witnesses(["w05", "w06", "w09", "w16"])
     ck.prove(extra_targets=tieb_stores.STORES[0], gen_kernels=tieb_stores.STORES[1])   # ties A + B
-    have_driver = ck.driver("ExC02")
+    have_driver = ck.driver("ExC02ds")     # ExC02 + the Datastore / Bucket layer (case tag 30)
 
+    # every history is a 4-tuple (symbolic ops, universe, None, layer); layer = calls on the storage object, or
+    # calls through the public Datastore / Bucket API
     n_random = 800 if ck.tier == "quick" else 40000
-    hists = (sh.malformed_boundary_histories() + sh.boundary_histories()[::6]
-             + [sh.gen_history(ck.rng, malformed=(i % 4 != 3)) for i in range(n_random)])
+    mal = sh.malformed_boundary_histories()
+    hists = ([(sym, univ, None, "storage") for sym, univ in mal + sh.boundary_histories()[::6]]
+             + [(sym, univ, None, "datastore") for sym, univ in mal[1::2]]
+             + [(sym, univ, None, layer) for layer in sh.LAYERS
+                for sym, univ in sh.carried_id_histories() + sh.reuse_histories()])
+    for i in range(n_random):
+        sym, univ = sh.gen_history(ck.rng, malformed=(i % 4 != 3), reuse=0.3 if i % 4 in (0, 3) else 0.0)
+        hists.append((sym, univ, None, sh.LAYERS[(i // 4) % 2]))
     results = sh.run_impl_batch(hists)
 
-    for (sym, univ), r in zip(hists, results):
+    for (sym, univ, _q, layer), r in zip(hists, results):
+        ck.count(f"layer:{layer}")
         for be in sh.BACKENDS:
             run = r[be]
+            passed_to = {}            # provenance of a passed Event object -> bucket it was first handed to
+            n_passed = 0              # event arguments handed over so far (= len of store_hist's `passed` list)
             before = [[] for _ in univ]
             interesting = False
             for j, (op, step) in enumerate(zip(run["ops"], run["steps"])):
@@ -57,19 +73,57 @@ def main(argv=None):
                         here = tgt in univ and i in sh.live_ids(before[univ.index(tgt)])
                         elsewhere = any(i in sh.live_ids(v) for b, v in zip(univ, before) if b != tgt)
                         ck.count("id-" + ("live-here" if here else "foreign" if elsewhere else "dead"))
+                    if op[0] in (7, 8):
+                        # the id the event ARGUMENT of replace / replace_last carries itself
+                        c = op[-1][0]
+                        if not c:
+                            kind = "none"
+                        elif op[0] == 7 and c[0] == op[2]:
+                            kind = "the-addressed-id"
+                        elif tgt in univ and c[0] in sh.live_ids(before[univ.index(tgt)]):
+                            kind = "live-here"
+                        elif any(c[0] in sh.live_ids(v) for b, v in zip(univ, before) if b != tgt):
+                            kind = "foreign"
+                        else:
+                            kind = "dead"
+                        ck.count(f"{sh.OPNAME[op[0]]}:id-carried-by-the-event-argument:{kind}")
+                # the same Event OBJECT handed to calls on different buckets
+                n_ev = {5: 1, 7: 1, 8: 1}.get(op[0], len(op[2]) if op[0] == 6 else 0)
+                base_idx = n_passed
+                for k in range(n_ev):
+                    prov = (run["objs"][j] or [None] * n_ev)[k]
+                    key = ("passed", base_idx + k) if prov is None else tuple(prov)
+                    if prov is not None:
+                        first = passed_to.get(key)
+                        ck.count("event-object-passed-again:" + ("object-the-store-handed-back" if prov[0] == "got" else
+                                                                 "to-another-bucket" if first not in (None, tgt) else
+                                                                 "to-the-same-bucket"))
+                    passed_to.setdefault(key, tgt)
+                    passed_to[("passed", base_idx + k)] = passed_to[key]
+                n_passed = base_idx + n_ev
                 changed = [b for b, v0, v1 in zip(univ, before, after) if b != tgt and v0 != v1]
                 if changed:
                     b = changed[0]
+                    reused = run["objs"][j]
                     ck.failing_input(f"C04:{be}:{sh.OPNAME[op[0]]}-changes-other-bucket",
-                                     f"{be}: {sh.describe(op)} ({status}) changed bucket {b}: "
+                                     f"{be}{'' if layer == 'storage' else ' (through Datastore/Bucket)'}: "
+                                     f"{sh.describe(op)} ({status}"
+                                     f"{', its event argument is the OBJECT passed to / returned by an earlier call: ' + str(reused) if reused else ''}"
+                                     f") changed bucket {b}: "
                                      f"{before[univ.index(b)]} -> {after[univ.index(b)]}",
-                                     {"backend": be, "history": [sh.describe(o) for o in run["ops"][:j + 1]],
+                                     {"backend": be, "layer": layer,
+                                      "history": [sh.describe(o) for o in run["ops"][:j + 1]],
                                       "wire_ops": run["ops"][:j + 1], "universe": univ,
+                                      "object_reuse": run["objs"][:j + 1] if any(run["objs"][:j + 1]) else None,
                                       "other_bucket": b, "before": before[univ.index(b)], "after": after[univ.index(b)],
-                                      "how": "harness.store_hist.apply_op on a fresh storage, ops in order"})
+                                      "how": "harness.store_hist.replay_run(backend, wire_ops, universe, layer, object_reuse): "
+                                             "the ops in order on a fresh back end; object_reuse[j][k] = ['passed'|'got', n] "
+                                             "means: the k-th event argument of op j is the very Event object that was the "
+                                             "n-th one passed to / handed back by the calls so far (no copy); layer "
+                                             "'datastore' = every call through aw_datastore.Datastore / Bucket"})
                     break
                 before = after
-            ck.note_case([be, run["ops"]], nontrivial=interesting)
+            ck.note_case([be, layer, run["ops"], run["objs"]], nontrivial=interesting)
         if len(ck.samples) < 4 and len(r["peewee"]["ops"]) >= 8:
             ck.sample({"backend": "peewee", "history": [sh.describe(o) for o in r["peewee"]["ops"][:12]],
                        "results": [s[0] for s in r["peewee"]["steps"][:12]]})
@@ -131,7 +185,7 @@ def main(argv=None):
 
     if have_driver:
         allh = [(h[1], r) for h, r in zip(hists, results)] + [(h[1], r) for h, r in zip(qhists, qresults)]
-        flat = [(be, univ, r[be]["ops"]) for univ, r in allh for be in sh.BACKENDS]
+        flat = [(be, univ, r[be]["ops"], r[be]["layer"]) for univ, r in allh for be in sh.BACKENDS]
         model = sh.run_model_batch("C04", flat)
         k = 0
         for univ, r in allh:
@@ -142,12 +196,18 @@ def main(argv=None):
                 if d is not None:
                     j, ms, is_ = d
                     ck.disagreement(be, f"op {j} {sh.describe(r[be]['ops'][j]) if j >= 0 else ''}: model and {be} differ"
-                                        + (" (history with an unread tail)" if "final" in r[be] else ""),
-                                    {"backend": be, "history": [sh.describe(o) for o in r[be]["ops"][:j + 1]],
-                                     "wire_ops": r[be]["ops"][:j + 1], "universe": univ, "model": ms, "impl": is_})
+                                        + (" (history with an unread tail)" if "final" in r[be] else "")
+                                        + (" (through Datastore/Bucket)" if r[be]["layer"] == "datastore" else ""),
+                                    {"backend": be, "layer": r[be]["layer"],
+                                     "history": [sh.describe(o) for o in r[be]["ops"][:j + 1]],
+                                     "wire_ops": r[be]["ops"][:j + 1], "universe": univ,
+                                     "object_reuse": r[be]["objs"][:j + 1], "model": ms, "impl": is_})
     ck.assumptions += [
         "strings/data enter the models as labels (0 = the falsy value of its kind); identity time codec",
-        "other buckets are observed through the storage API (get_metadata + get_events(-1)), sorted by id",
+        "other buckets are observed through the API of the layer the history runs on (get_metadata + get_events(-1), "
+        "resp. Bucket.metadata + Bucket.get(-1)), ids included, sorted by id",
+        "an Event object passed again is passed as it is (the caller does not touch it between the calls); the model "
+        "has no aliasing: it sees the value the object holds at the time of the call",
         "the universe of every history contains a bucket that is never created, so writes to a missing bucket "
         "are observed too",
     ]
